@@ -61,8 +61,11 @@ def identity_race(ctx, exe, nclients=12, seconds=5.0, nthreads=8, label="idrace"
             problems += b
             total += n
     finally:
-        pool.terminate()
-        pool.join()
+        try:
+            pool.terminate()
+            pool.join()
+        except Exception:           # multiprocessing asserts when a pool is torn down with tasks still outstanding
+            pass
     rc, rep = d.stop(timeout=30)
     return problems, rep, total
 
@@ -218,8 +221,11 @@ def mac_race(ctx, exe, seconds=4.0, nthreads=4, label="macrace"):
             problems += b
             total += n
     finally:
-        pool.terminate()
-        pool.join()
+        try:
+            pool.terminate()
+            pool.join()
+        except Exception:           # multiprocessing asserts when a pool is torn down with tasks still outstanding
+            pass
     rc, rep = d.stop(timeout=30)
     return problems, rep, total
 
@@ -278,3 +284,91 @@ def broken_connections_phase(ctx, exe, n=120, nofile=48, label="brokenconn"):
     finally:
         rc, rep = d.stop()
     return probs, rep, n
+
+
+def _patient(fn, *a, **kw):
+    """a full listen backlog makes connect() fail with EAGAIN: that is the kernel's answer, not the daemon's; come back later"""
+    for _ in range(400):
+        r, st = fn(*a, **kw)
+        if r is None and isinstance(st, str) and st.startswith("connect:"):
+            time.sleep(0.01)
+            continue
+        return r, st
+    return r, st
+
+
+def _polite(args):
+    sock, idx, t_end = args
+    bad, n = [], 0
+    while time.time() < t_end and len(bad) < 3:
+        n += 1
+        payload = b"polite %d %d" % (idx, n)
+        e, st = _patient(rig.encode, sock, data=payload)
+        if e is None or e["error_num"] != 0:
+            bad.append({"why": "a well-behaved client (#%d, request %d) got no credential: %s %s" % (idx, n, st, e and e["error_str"])})
+            continue
+        d, st = _patient(rig.decode, sock, e["data"])
+        if d is None or d["error_num"] != 0 or d["data"] != payload:
+            bad.append({"why": "a well-behaved client (#%d, request %d) got %s for the decode of its own fresh credential"
+                               % (idx, n, (st if d is None else (d["error_num"], d["error_str"], d["data"][:20])))})
+    return bad, n
+
+
+def _rude(args):
+    """clients that send a complete, valid request and leave without reading the reply (the daemon's send fails), in bursts"""
+    sock, t_end = args
+    import socket
+    body = rig.enc_req_body(data=b"r" * 300)
+    raw = rig.hdr(rig.T_ENC_REQ, 0, len(body)) + body
+    n = 0
+    while time.time() < t_end:
+        try:
+            s = socket.socket(socket.AF_UNIX, socket.SOCK_STREAM)
+            s.connect(sock)
+            s.shutdown(socket.SHUT_RD)
+            s.sendall(raw)
+            s.close()
+        except OSError:
+            time.sleep(0.005)
+        n += 1
+        if n % 8 == 0:
+            time.sleep(0.002)
+    return n
+
+
+def rude_polite_phase(ctx, exe, seconds=4.0, nthreads=4, label="rude"):
+    """every accepted request of a well-behaved client is served, whatever clients around it do with THEIR connections:
+    'rude' clients send valid requests and hang up before the reply (m_msg_send fails in the daemon) while 'polite' ones
+    encode and decode; each polite transaction must complete with its own payload"""
+    d = rig.Daemon(ctx, exe, tag=label, nthreads=nthreads)
+    if not d.start(wait=20):
+        return [{"why": "daemon (%s) does not start" % label}], "", 0
+    pool = multiprocessing.Pool(10)
+    problems, total = [], 0
+    try:
+        t_end = time.time() + seconds
+        pr = [pool.apply_async(_polite, ((d.sock, i, t_end),)) for i in range(6)]
+        rr = [pool.apply_async(_rude, ((d.sock, t_end),)) for _ in range(4)]
+        for x in pr:
+            b, n = x.get(timeout=seconds + 90)
+            problems += b
+            total += n
+        for x in rr:
+            total += x.get(timeout=seconds + 90)
+    finally:
+        try:
+            pool.terminate()
+            pool.join()
+        except Exception:           # multiprocessing asserts when a pool is torn down with tasks still outstanding
+            pass
+    time.sleep(0.3)
+    c = None
+    for _ in range(20):
+        c = rig.canary(d.sock)
+        if not c or "connect:" not in c:
+            break
+        time.sleep(0.1)
+    if c:
+        problems.append({"why": "after the rude/polite load: " + c})
+    rc, rep = d.stop(timeout=30)
+    return problems, rep, total
